@@ -10,7 +10,8 @@
    /repo/internal/bundler/bundler.go the file-loader output of processScannedFiles
                                               -> chunk_lj, chunk_pre
      generateChunksInParallel: breakJoinerIntoPieces(callback(len(outputContents)))
-       then substituteFinalPaths              -> chunk_final
+       then substituteFinalPaths, which writes escapeFinalPath(modifyPath(..), false)
+       for each key (fix b608b91)               -> chunk_final
    /repo/internal/bundler/bundler.go
      processScannedFiles (jsonMetadataChunk of an input)     -> input_lj, input_json
      generateMetadataJSON                                     -> metafile_bytes (uses Metafile.list_outputs)
@@ -43,8 +44,11 @@ Record chunk := mkChunk {
   c_bytes : Z
 }.
 
+(* an import of an input: external (no resolve result), resolved (with the
+   original specifier), or the parser-generated import of an injected file
+   (fix 3b6e9ba: neither "external" nor "original") *)
 Record iimp := mkIImp {
-  ii_path : bytes; ii_kind : bytes; ii_external : bool; ii_original : bytes;
+  ii_path : bytes; ii_kind : bytes; ii_external : bool; ii_original : option bytes;
   ii_with : list (bytes * bytes)
 }.
 
@@ -98,6 +102,8 @@ Section Doc.
     Variable nf nc : Z.
     Variable pathOf : Z -> Z -> bytes.   (* kind, index -> pretty path of the asset / chunk output *)
 
+    Definition final_path (k i : Z) : bytes := escape_final (pathOf k i).
+
     (* what jsonMetadataChunkCallback returns *)
     Definition chunk_pre (c : chunk) : bytes :=
       render ascii (fun k i => quote_for_json ascii (key_bytes prefix k i)) (chunk_lj c).
@@ -105,7 +111,7 @@ Section Doc.
     (* the JSONMetadataChunk of the output file *)
     Definition chunk_final (c : chunk) : bytes :=
       match break_joiner prefix nf nc (chunk_pre c) with
-      | Some o => substitute_out pathOf o (chunk_pre c)
+      | Some o => substitute_out final_path o (chunk_pre c)
       | None => []
       end.
   End Link.
@@ -118,9 +124,12 @@ Section Doc.
 
   Definition iimp_lj (i : iimp) : lj :=
     LObj ([(nl 10, K "path"%string, sp, LS (SQ (ii_path i)));
-           (nl 10, K "kind"%string, sp, LS (SQ (ii_kind i)));
-           (if ii_external i then (nl 10, K "external"%string, sp, LTrue)
-            else (nl 10, K "original"%string, sp, LS (SQ (ii_original i))))]
+           (nl 10, K "kind"%string, sp, LS (SQ (ii_kind i)))]
+          ++ (if ii_external i then [(nl 10, K "external"%string, sp, LTrue)]
+              else match ii_original i with
+                   | Some o => [(nl 10, K "original"%string, sp, LS (SQ o))]
+                   | None => []
+                   end)
           ++ with_lj 10 (ii_with i))
          (nl 8).
 
@@ -158,5 +167,5 @@ End Doc.
    (absolute-or-relative pretty path, description) in the order of the results *)
 Definition metafile_of (mini ascii : bool) (prefix : bytes) (nf nc : Z) (pathOf : Z -> Z -> bytes)
            (ins : list input) (outs : list (bytes * chunk)) : bytes :=
-  metafile_bytes mini ascii (map (input_json mini ascii (fun k i => 34 :: pathOf k i ++ [34])) ins)
+  metafile_bytes mini ascii (map (input_json mini ascii (fun k i => 34 :: escape_final (pathOf k i) ++ [34])) ins)
     (map (fun pc => (fst pc, chunk_final mini ascii prefix nf nc pathOf (snd pc))) outs).
